@@ -20,6 +20,7 @@ EXPLANATION = (
     " Added after seed round 6: K6 the translation memo of _break_cycles is keyed by the node only although the translation depends on is_evidence: passes with different is_evidence values get different tables."
     " Added after seed round 7: K7 _break_cycles substitutes a propagated evidence value only on paths where is_evidence is false."
     " Added after seed round 8: K8 a memo table inside one transformation function is written under the key form it is read under (module scan, positive example)."
+    " Added after seed round 9: K9 set_weights stores and get_weights returns every entry it is given (plain reference or unfiltered copy)."
 )
 TECHNIQUE = "static analysis: clause-template extraction from the AST, decision-table extraction of _break_cycles"
 LEVEL_TEXT = EXPLANATION
@@ -481,6 +482,49 @@ def rule_k8(repo, col):
     col.floor("K8.functions_scanned", n_f, 150)
 
 
+def _is_plain_copy(e, src):
+    """`src`, dict(src), src.copy(), copy.copy(src), {k: v for k, v in src.items()} - the same entries, none left out"""
+    t = norm(e)
+    if t in (src, "dict(%s)" % src, "%s.copy()" % src, "copy.copy(%s)" % src, "copy(%s)" % src, "{**%s}" % src):
+        return True
+    if isinstance(e, ast.DictComp) and len(e.generators) == 1:
+        g = e.generators[0]
+        if norm(g.iter) == "%s.items()" % src and isinstance(g.target, ast.Tuple) and len(g.target.elts) == 2:
+            k, v = norm(g.target.elts[0]), norm(g.target.elts[1])
+            return not g.ifs and norm(e.key) == k and norm(e.value) == v
+    return None if not isinstance(e, ast.DictComp) else False
+
+
+def rule_k9(repo, col):
+    """the weights handed to set_weights are the weights get_weights returns: every entry, unchanged (clarks_completion copies them with set_weights(source.get_weights());
+    an entry that is dropped because its weight is falsy - 0.0, None, False - becomes a free atom of the CNF with weight (1, 1))"""
+    c = repo.cls("problog.formula", "BaseFormula")
+    m = c.module
+    sw, gw = c.methods.get("set_weights"), c.methods.get("get_weights")
+    if sw is None or gw is None or len(sw.params) != 2:
+        raise AnalysisError("BaseFormula.set_weights / get_weights not found")
+    prm = sw.params[1]
+    stores = [st for st in walk_no_nested(sw.node) if isinstance(st, ast.Assign) and len(st.targets) == 1 and isinstance(st.targets[0], ast.Attribute) and norm(st.targets[0].value) == "self"]
+    if len(stores) != 1:
+        raise AnalysisError("set_weights: one store to an attribute of self expected")
+    attr = norm(stores[0].targets[0])
+    okc = _is_plain_copy(stores[0].value, prm)
+    if okc is None:
+        raise AnalysisError("set_weights: stored value not understood: %s" % norm(stores[0].value)[:80])
+    col.decide("K9", m, stores[0], okc, "set_weights keeps every entry it is given",
+               "set_weights stores %s: entries are filtered or rewritten on the way in - an atom whose weight is 0.0 / None / False has no weight in the CNF any more, counts as a free "
+               "atom with weight (1, 1), and the models that make it true carry mass (total model weight 2.0 instead of 1.0)" % norm(stores[0].value)[:80],
+               construct="set_weights: stored weights", function="BaseFormula.set_weights")
+    rets = [r for r in walk_no_nested(gw.node) if isinstance(r, ast.Return)]
+    if len(rets) != 1 or rets[0].value is None:
+        raise AnalysisError("get_weights: one return expected")
+    okg = _is_plain_copy(rets[0].value, attr)
+    if okg is None:
+        raise AnalysisError("get_weights: returned value not understood: %s" % norm(rets[0].value)[:80])
+    col.decide("K9", m, rets[0], okg, "get_weights hands out every stored entry", "get_weights returns %s instead of the stored table %s" % (norm(rets[0].value)[:80], attr),
+               construct="get_weights: returned weights", function="BaseFormula.get_weights")
+
+
 def run(repo, col):
     col.rule("K1", "clause templates of Clark's completion")
     col.rule("K2", "weights, atoms, constraints and names are carried over")
@@ -497,3 +541,5 @@ def run(repo, col):
     rule_k7(repo, col)
     col.rule("K8", "translation memos are written under the key they are read under")
     rule_k8(repo, col)
+    col.rule("K9", "set_weights / get_weights carry every entry unchanged")
+    rule_k9(repo, col)
